@@ -160,7 +160,15 @@ func genRacing(rng *mon.RNG) (ctl []rstep, workers [][]rstep, hold bool) {
 
 func runRacing(t *testing.T, idx int, rng *mon.RNG) {
 	ctl, workers, hold := genRacing(rng)
-	phase := time.Duration(rng.Intn(7200)) * time.Second
+	z := pickZone(rng)
+	if z.set() && rng.Bool() {
+		for _, c := range zones {
+			if c.subMinute {
+				z = c // the short racing histories see a location only through a sub-minute offset
+			}
+		}
+	}
+	phase := genPhase(rng, z).Truncate(time.Second)
 	yield := rng.Intn(4)
 	var hs []string
 	line := func(g int, ss []rstep) {
@@ -174,9 +182,9 @@ func runRacing(t *testing.T, idx int, rng *mon.RNG) {
 	for g, ws := range workers {
 		line(g+1, ws)
 	}
-	desc := fmt.Sprintf("racing phase=%v yield=%d hold=%v %s", phase, yield, hold, strings.Join(hs, " | "))
+	desc := fmt.Sprintf("racing loc=%s phase=%v yield=%d hold=%v %s", z.name, phase, yield, hold, strings.Join(hs, " | "))
 	rec.Begin(idx, desc)
-	w := &world{idx: idx, mode: "racing", hold: hold, history: hs, yield: yield, yieldRng: mon.NewRNG("c05-yield", idx)}
+	w := &world{idx: idx, mode: "racing", zone: z, hold: hold, history: hs, yield: yield, yieldRng: mon.NewRNG("c05-yield", idx)}
 	res := bubble(t, w, func() {
 		time.Sleep(phase)
 		base := time.Now()
